@@ -15,6 +15,7 @@ def renEv : KEvent → KEvent
   | .deliver i m => .deliver i (renMsg a m)
   | .exitConn i m => .exitConn i (renMsg a m)
   | .wakeup i => .wakeup i
+  | .restart i => .restart i
 
 def renSl (s : Sl) : Sl := { s with id := a.sleepId s.id }
 
@@ -47,6 +48,8 @@ def renSim (s : Sim) : Sim :=
 @[simp] theorem renSim_nextSleep (s : Sim) : (renSim a s).nextSleep = s.nextSleep := rfl
 @[simp] theorem renSim_mods (s : Sim) : (renSim a s).mods = s.mods.map (renMod a) := rfl
 @[simp] theorem renSim_evs (s : Sim) : (renSim a s).evs = s.evs.map (renEv a) := rfl
+@[simp] theorem renSim_dropped (s : Sim) : (renSim a s).dropped = s.dropped := rfl
+@[simp] theorem renSim_seeds (s : Sim) : (renSim a s).seeds = s.seeds := rfl
 @[simp] theorem renSim_buf (s : Sim) : (renSim a s).buf = s.buf.map (fun p => (renEv a p.1, p.2)) := rfl
 
 @[simp] theorem renMod_path (m : ModRt) : (renMod a m).path = m.path := rfl
@@ -59,6 +62,9 @@ def renSim (s : Sim) : Sim :=
 @[simp] theorem renMod_tick (m : ModRt) : (renMod a m).tick = m.tick := rfl
 @[simp] theorem renMod_localq (m : ModRt) : (renMod a m).localq = m.localq := rfl
 @[simp] theorem renMod_inject (m : ModRt) : (renMod a m).inject = m.inject := rfl
+@[simp] theorem renMod_active (m : ModRt) : (renMod a m).active = m.active := rfl
+@[simp] theorem renMod_shutdownReq (m : ModRt) : (renMod a m).shutdownReq = m.shutdownReq := rfl
+@[simp] theorem renMod_inc (m : ModRt) : (renMod a m).inc = m.inc := rfl
 
 @[simp] theorem renTask_tag (t : TaskRt) : (renTask a t).tag = t.tag := rfl
 @[simp] theorem renTask_ttl (t : TaskRt) : (renTask a t).ttl = t.ttl := rfl
